@@ -1018,3 +1018,87 @@ func notOf(P *Prog, v ssa.Value, stopAt *ssa.Function) (ssa.Value, bool) {
 	}
 	return nil, false
 }
+
+// guardsAcross: the conditions known at block b — those of its own function and,
+// when that function is a private helper with a single static call site, those
+// holding at the call site (transitively, up to the anchor function).
+func guardsAcross(P *Prog, b *ssa.BasicBlock, anchor *ssa.Function) []atom {
+	out := guardsOf(b)
+	f := b.Parent()
+	for i := 0; i < 4 && f != anchor && f.Parent() == nil; i++ {
+		sites := callSitesOf(P, f)
+		if len(sites) != 1 {
+			break
+		}
+		out = append(out, guardsOf(sites[0].Block())...)
+		f = sites[0].Parent()
+	}
+	return out
+}
+
+// dependsOnPath is dependsOn along one enumerated path: a phi contributes only
+// the value it took on that path.
+func dependsOnPath(p pathAtoms, v ssa.Value, pred func(ssa.Value) bool) bool {
+	seen := map[ssa.Value]bool{}
+	var walk func(v ssa.Value, d int) bool
+	walk = func(v ssa.Value, d int) bool {
+		if v == nil || seen[v] || d > 60 {
+			return false
+		}
+		seen[v] = true
+		if pred(v) {
+			return true
+		}
+		if ph, ok := v.(*ssa.Phi); ok {
+			if nv, has := p.env[ph]; has {
+				return walk(nv, d+1)
+			}
+		}
+		if u, ok := v.(*ssa.UnOp); ok && u.Op == token.MUL {
+			if rootc := cellRoot(u.X); rootc != nil {
+				if _, isAlloc := rootc.(*ssa.Alloc); isAlloc {
+					for _, st := range cellStores(u.Parent(), rootc) {
+						if walk(st.Val, d+1) {
+							return true
+						}
+					}
+				}
+			}
+		}
+		if in, ok := v.(ssa.Instruction); ok {
+			for _, op := range in.Operands(nil) {
+				if *op != nil && walk(*op, d+1) {
+					return true
+				}
+			}
+		}
+		return false
+	}
+	return walk(v, 0)
+}
+
+// isAscendingIndexLoop: the loop walks an index upwards by one from the start
+// (for i := 0; i < n; i++ — or the lowered form of a range loop).
+func isAscendingIndexLoop(l loopInfo) bool {
+	for _, in := range l.header.Instrs {
+		ph, ok := in.(*ssa.Phi)
+		if !ok {
+			continue
+		}
+		start, step := false, false
+		for _, e := range ph.Edges {
+			if k, isK := constInt(e); isK && (k == 0 || k == -1) {
+				start = true
+			}
+			if b, isB := e.(*ssa.BinOp); isB && b.Op == token.ADD && b.X == ssa.Value(ph) {
+				if k, isK := constInt(b.Y); isK && k == 1 {
+					step = true
+				}
+			}
+		}
+		if start && step {
+			return true
+		}
+	}
+	return false
+}
